@@ -63,6 +63,18 @@ def main():
                 nucs.append((f"Nuclide({sp!r},{dl})", rd.Nuclide(sp, d), (name, dc)))
     for (la, a, sa), (lb, b, sb) in itertools.combinations_with_replacement(nucs, 2):
         chk_pair(a, b, la, lb, expect=(sa == sb), hashable=True)
+    # nuclides that were already hashed (dictionary keys, set members) before their data set object was given another name,
+    # against nuclides created afterwards on the same data set object: whenever == holds the hashes must agree
+    mutable = copy.deepcopy(fresh)
+    early = [(f"Nuclide({sp!r},mutable) [hashed before rename]", rd.Nuclide(sp, mutable)) for name in names[:3] for sp in req["spellings"][name]]
+    lookup = {n: l for l, n in early}
+    _ = set(n for _, n in early)
+    mutable.dataset_name = "renamed_later"
+    late = [(f"Nuclide({sp!r},mutable) [created after rename]", rd.Nuclide(sp, mutable)) for name in names[:3] for sp in req["spellings"][name]]
+    for (la, a), (lb, b) in itertools.product(early + late, repeat=2):
+        chk_pair(a, b, la, lb, expect=(a.nuclide == b.nuclide), hashable=True)
+    # (no dictionary look-up here: a dict stores the hash a key had when it was inserted, so renaming the data set of a key that is
+    #  already in a dict legitimately loses it - that is Python's contract for mutable keys, not this property)
     s = set(n for _, n, _ in nucs)
     if len(s) != len(set(sp for _, _, sp in nucs)):
         viol.append({"what": f"a set of nuclides has {len(s)} members for {len(set(sp for _, _, sp in nucs))} distinct specifications"})
